@@ -31,6 +31,9 @@ class Scenario:
     def entry(self, m):
         m.pc.append(self.domain)
         m.hash_order_symbolic = self.hash_sym
+        dep = getattr(self, 'departure', None)
+        if dep is not None:
+            m.departure_budget, m.dep_selectors = dep
         start = self.start.sym() if isinstance(self.start, Selector) else self.start
         return H.generate(m, self.docs, start, order=self.order)
 
